@@ -8,6 +8,7 @@ from typing import TYPE_CHECKING, Any, Callable, Optional, Union
 import numpy as np
 
 from formulaic.materializers.types import FactorValues
+from formulaic.utils.null_handling import drop_rows as drop_nulls
 
 from .contrasts import Contrasts, encode_contrasts
 
@@ -57,7 +58,7 @@ def hashed(
         encoder_state: dict[str, Any],
         model_spec: ModelSpec,
     ) -> FactorValues:
-        values = np.array(values)
+        values = drop_nulls(np.array(values), indices=drop_rows)
         return encode_contrasts(
             values,
             contrasts=contrasts,
